@@ -120,11 +120,11 @@ end SpAt
 open Lean Elab Tactic Meta in
 /-- classify the head of the program in a goal `SpAt R s prog post`. -/
 def spKind (t : Expr) : MetaM String := do
-  let t ← instantiateMVars t
+  let t := (← instantiateMVars t).cleanupAnnotations
   unless t.isAppOf ``Rooc.Lin.SpAt do return "none"
   let args := t.getAppArgs
   if args.size < 4 then return "none"
-  let prog := args[args.size - 2]!
+  let prog := (args[args.size - 2]!).cleanupAnnotations
   if prog.isLet then return "let"
   if prog.isHeadBetaTarget then return "beta"
   let fn := prog.getAppFn
